@@ -34,97 +34,23 @@ def _msg_items(ctx, cls, fn):
     return None
 
 
-@rule(P, "D14.1", "T-SIB", floor=4)
+@rule(P, "D14.1", "T-WITNESS", floor=4)
 def d14_1(ctx):
-    """Connected, UCMM and Unconnected Send carry [service, request_path(class, instance, attribute), data] in that order."""
-    con = ctx.model.cls(f"{PC}:GenericConnectedRequestPacket")
-    unc = ctx.model.cls(f"{PC}:GenericUnconnectedRequestPacket")
-    triple = [[("ref", "self.service")], [("ref", "req_path")], [("ref", "self.request_data")]]
+    """Connected, UCMM and Unconnected Send requests carry [service, request_path(class, instance, attribute), data] in that order
+    (UCMM: followed by the route; Unconnected Send: that message embedded, the route as the wrapper's second part).  Decided on
+    witness packets (generic-request / generic-response frames of sa/rules/packets.py)."""
+    from .packets import _emit
 
-    def req_path_ok(fn):
-        for n in walk(fn):
-            if isinstance(n, ast.Assign) and atom_name(n.targets[0]) == "req_path" and isinstance(n.value, ast.Call) and call_name(n.value) == "request_path":
-                return [atom_name(a) for a in n.value.args] == ["self.class_code", "self.instance", "self.attribute"] and not n.value.keywords
-        return False
-
-    fn = con.methods["_setup_message"]
-    items = _msg_items(ctx, con, fn)
-    norm = [[f for f in it] for it in (items or [])]
-    if len(norm) == 3 and norm[1] == [("ref", "request_path(self.class_code,self.instance,self.attribute)")]:
-        norm[1] = [("ref", "req_path")]
-    ctx.check(norm == triple and req_path_ok(fn), ckey(con.key + "._setup_message"), fn, "connected: service, path, data", f"connected generic request appends {[show(i) for i in (items or [])]}; expected service, request_path(class, instance, attribute), data", items=[show(i) for i in (items or [])])
-    fn = unc.methods["_setup_message"]
-    # two arms selected by self.unconnected_send
-    arms = [n for n in walk(fn) if isinstance(n, ast.If) and attr_path(n.test) == "self.unconnected_send"]
-    ok_direct = ok_wrapped = False
-    facts = {}
-    if len(arms) == 1:
-        a = arms[0]
-        for st in a.orelse:
-            if isinstance(st, ast.Assign) and isinstance(st.value, ast.List):
-                names = [atom_name(e) for e in st.value.elts]
-                facts["ucmm"] = names
-                ok_direct = names == ["self.service", "req_path", "self.request_data", "self.route_path"]
-        for st in a.body:
-            for c in walk(st):
-                if isinstance(c, ast.Call) and call_name(c) == "wrap_unconnected_send" and len(c.args) == 2:
-                    emb = c.args[0]
-                    if isinstance(emb, ast.Call) and isinstance(emb.func, ast.Attribute) and emb.func.attr == "join" and ctx.folder.eval(emb.func.value, unc.module) == b"" and isinstance(emb.args[0], (ast.Tuple, ast.List)):
-                        names = [atom_name(e) for e in emb.args[0].elts]
-                        facts["unconnected_send"] = names
-                        ok_wrapped = names == ["self.service", "req_path", "self.request_data"] and atom_name(c.args[1]) == "self.route_path"
-        appended = any(isinstance(n, ast.AugAssign) and attr_path(n.target) == "self._msg" and atom_name(n.value) == "msg" for n in walk(fn))
-        ok_direct = ok_direct and appended
-        ok_wrapped = ok_wrapped and appended
-    ctx.check(ok_direct and req_path_ok(fn), ckey(unc.key + "._setup_message", "ucmm"), fn, "UCMM: service, path, data, route", "the direct unconnected form is not [service, path, data, route_path]", **facts)
-    ctx.check(ok_wrapped, ckey(unc.key + "._setup_message", "unconnected-send"), fn, "Unconnected Send embeds service+path+data and carries the route", "the Unconnected Send form does not embed exactly service+path+data with the route path as second argument", **facts)
-    # identical normalisation / attribute capture in both constructors
-    def captures(c):
-        init = c.methods["__init__"]
-        out = {}
-        for n in walk(init):
-            if isinstance(n, ast.Assign) and (attr_path(n.targets[0]) or "").startswith("self."):
-                out[attr_path(n.targets[0])[5:]] = dump(n.value)
-        return out
-    a, b = captures(con), captures(unc)
-    shared = ["data_type", "class_code", "instance", "attribute", "service", "request_data"]
-    same = all(a.get(k) == b.get(k) and a.get(k) is not None for k in shared)
-    plain = all(a.get(k) == dump(ast.Name(id=k, ctx=ast.Load())) for k in shared if k != "service")
-    svc = None
-    for n in walk(con.methods["__init__"]):
-        if isinstance(n, ast.Assign) and attr_path(n.targets[0]) == "self.service":
-            svc = n.value
-    svc_ok = isinstance(svc, ast.IfExp) and isinstance(svc.test, ast.Call) and call_name(svc.test) == "isinstance" and atom_name(svc.test.args[1]) == "bytes" and atom_name(svc.body) == "service" and isinstance(svc.orelse, ast.Call) and call_name(svc.orelse) == "bytes" and src(svc.orelse.args[0]).replace(" ", "") == "[service]"
-    ctx.check(same and plain and svc_ok and b.get("route_path") == dump(ast.Name(id="route_path", ctx=ast.Load())) and b.get("unconnected_send") == dump(ast.Name(id="unconnected_send", ctx=ast.Load())), ckey(PC, "constructors"), con.methods["__init__"],
-              "both constructors store the arguments unchanged and normalise the service identically (int -> one byte)", "the two generic request constructors capture/normalise their arguments differently", connected=sorted(a), unconnected=sorted(b))
+    _emit(ctx, {"generic-request", "generic-response", "generic-response-errors"})
 
 
-@rule(P, "D14.2", "T-LAYOUT", floor=2)
+@rule(P, "D14.2", "T-WITNESS", floor=2)
 def d14_2(ctx):
-    """Unconnected Send wrapper: 52 | path(class 6, instance 1) | priority | ticks | UINT len(message) | message | pad iff odd | route."""
-    sp = ctx.spec("connmgr")["unconnected_send"]
-    fn = ctx.model.func(f"{PU}:wrap_unconnected_send")
-    f = fn.node
-    msg, route = [a.arg for a in f.args.args]
-    lay = flatten(Layouter(ctx, fn.module, None, f, inline_depth=0).function(f) or [])
-    facts = {"layout": show(lay)}
-    good = len(lay) == 8
-    if good:
-        lenvar = [n for n in walk(f) if isinstance(n, ast.Assign) and isinstance(n.value, ast.Call) and call_name(n.value) == "len" and atom_name(n.value.args[0]) == msg]
-        lv = atom_name(lenvar[0].targets[0]) if lenvar else None
-        good = (lay[0] == ("const", bytes.fromhex(sp["service"])) and lay[1][0] == "ref" and lay[2][0] == "const" and len(lay[2][1]) == 1 and lay[3][0] == "const" and len(lay[3][1]) == 1
-                and lay[4][0] == "lenof" and lay[4][1] == "UINT" and lay[4][3] == msg and lay[4][4] == "bytes" and lay[5] == ("ref", msg)
-                and lay[6][0] == "pad" and lay[6][2] == b"\x00" and lay[6][1].replace(" ", "") in (f"{lv}%2", f"len({msg})%2") and lay[7] == ("ref", route))
-    ctx.check(good, ckey(fn, "layout"), f, "service 52, path, priority, ticks, UINT embedded length, message, 00 iff odd, route", f"Unconnected Send wrapper layout {show(lay)} deviates from CIP 3-5.5.4", **facts)
-    rp = [n for n in walk(f) if isinstance(n, ast.Call) and call_name(n) == "request_path"]
-    good = False
-    if len(rp) == 1:
-        kw = {k.arg: ctx.folder.eval(k.value, fn.module) for k in rp[0].keywords}
-        pos = [ctx.folder.eval(a, fn.module) for a in rp[0].args]
-        cc = kw.get("class_code", pos[0] if pos else None)
-        inst = kw.get("instance", pos[1] if len(pos) > 1 else None)
-        good = cc in (b"\x06", 6) and inst in (b"\x01", 1) and "attribute" not in kw and len(pos) <= 2
-    ctx.check(good, ckey(fn, "target"), f, "addressed to the connection manager (class 6, instance 1)", "Unconnected Send is not addressed to class 0x06 instance 1")
+    """Unconnected Send wrapper: 52 | path(connection manager, instance 1) | priority | ticks | UINT len(message) | message | pad iff
+    odd | route.  Decided by folding `wrap_unconnected_send` on odd, even and empty messages (part of D14.10)."""
+    from .driver import _generic_message_rule
+
+    _generic_message_rule(ctx)
 
 
 def _route_calls(ctx, fn):
@@ -135,57 +61,15 @@ def _route_calls(ctx, fn):
     return out
 
 
-@rule(P, "D14.3", "T-SIB", floor=5)
+@rule(P, "D14.3", "T-WITNESS", floor=5)
 def d14_3(ctx):
-    """Route selection: True / str / bytes / sequence branches encode with identical facts; False gives no route; connected requests use the sequence generator."""
-    drv = ctx.model.cls(f"{CD}:CIPDriver")
-    fn = drv.methods["generic_message"]
-    assigns = _route_calls(ctx, fn)
-    kinds = {}
-    for a in assigns:
-        p = getattr(a, "_parent", None)
-        test = src(p.test).replace(" ", "") if isinstance(p, ast.If) else "?"
-        v = a.value
-        if isinstance(v, ast.Call) and attr_path(v.func) == "PADDED_EPATH.encode":
-            kw = {k.arg: ctx.folder.eval(k.value, drv.module) for k in v.keywords}
-            kinds[test] = ("encode", src(v.args[0]).replace(" ", "").replace('"', "'"), kw)
-        else:
-            kinds[test] = ("raw", src(v), {})
-    want = {
-        "route_pathisTrue": ("encode", "self._cfg['cip_path']", {"length": True, "pad_length": True}),
-        "isinstance(route_path,str)": ("encode", "parse_cip_route(route_path)", {"length": True, "pad_length": True}),
-        "isinstance(route_path,bytes)": ("raw", "route_path", {}),
-        "route_path": ("encode", "route_path", {"length": True, "pad_length": True}),
-    }
-    for k, w in want.items():
-        got = kinds.get(k)
-        ctx.check(got == w, ckey(drv.key + ".generic_message", f"route:{k}"), fn, f"{k}: {w[0]} {w[1]} {w[2] or ''}", f"route_path branch `{k}` yields {got}; expected {w} (word count and reserved byte on every encoded route)", got=str(got))
-    extra = set(kinds) - set(want)
-    if extra:
-        ctx.violation(ckey(drv.key + ".generic_message", "route:extra"), fn, f"unexpected route_path branches {sorted(extra)}")
-    # connected -> sequence generator; unconnected -> unconnected_send flag
-    seq = [n for n in walk(fn) if isinstance(n, ast.Assign) and isinstance(n.targets[0], ast.Subscript) and atom_name(n.targets[0].value) == "_kwargs" and isinstance(n.targets[0].slice, ast.Constant) and n.targets[0].slice.value == "sequence"]
-    us = [n for n in walk(fn) if isinstance(n, ast.Assign) and isinstance(n.targets[0], ast.Subscript) and atom_name(n.targets[0].value) == "_kwargs" and isinstance(n.targets[0].slice, ast.Constant) and n.targets[0].slice.value == "unconnected_send"]
+    """Route selection: True / string / segment list are encoded with word count and reserved byte, bytes pass through, False or an
+    empty list give no route; connected requests carry the sequence generator and pass the Forward Open guard.  Decided by folding
+    `generic_message` on one witness per route form (D14.10).  An earlier form compared the branches of the `route_path` ladder and
+    alarmed when the ladder was moved into a helper."""
+    from .driver import _generic_message_rule
 
-    def under(n, test, branch):
-        p, child = getattr(n, "_parent", None), n
-        while p is not None and p is not fn:
-            if isinstance(p, ast.If) and atom_name(p.test) == test:
-                return (child in p.body) == branch
-            child, p = p, getattr(p, "_parent", None)
-        return False
-
-    good = len(seq) == 1 and attr_path(seq[0].value) == "self._sequence" and under(seq[0], "connected", True) and len(us) == 1 and atom_name(us[0].value) == "unconnected_send" and under(us[0], "connected", False) and all(under(a, "connected", False) for a in assigns)
-    ctx.check(good, ckey(drv.key + ".generic_message", "transport-args"), fn, "connected: sequence generator; unconnected: route and unconnected_send flag", "transport-specific arguments are not selected by `connected`")
-    # the request arguments are passed verbatim
-    d = [n for n in walk(fn) if isinstance(n, ast.Assign) and atom_name(n.targets[0]) == "_kwargs" and isinstance(n.value, ast.Dict)]
-    good = False
-    if d:
-        m = {ctx.folder.eval(k, drv.module): atom_name(v) for k, v in zip(d[0].value.keys, d[0].value.values) if k is not None}
-        good = m == {k: k for k in ("service", "class_code", "instance", "attribute", "request_data", "data_type")}
-    call = [c for c in walk(fn) if isinstance(c, ast.Call) and atom_name(c.func) == "req_class" and any(k.arg is None and atom_name(k.value) == "_kwargs" for k in c.keywords)]
-    cls_sel = [n for n in walk(fn) if isinstance(n, ast.Assign) and atom_name(n.targets[0]) == "req_class" and isinstance(n.value, ast.IfExp) and atom_name(n.value.test) == "connected" and atom_name(n.value.body) == "GenericConnectedRequestPacket" and atom_name(n.value.orelse) == "GenericUnconnectedRequestPacket"]
-    ctx.check(good and len(call) == 1 and len(cls_sel) == 1, ckey(drv.key + ".generic_message", "verbatim"), fn, "service/class/instance/attribute/data/data_type are handed to the request class unchanged", "generic_message does not pass its arguments verbatim to the request class chosen by `connected`")
+    _generic_message_rule(ctx)
 
 
 @rule(P, "D14.4", "T-SIB", floor=3)
@@ -283,26 +167,81 @@ def _cv(ctx, node, module, fn=None):
     return v
 
 
+def _helper_request(ctx, cls, name, me_attrs, args):
+    """Fold helper `name` with generic_message as a marker; returns (kind, result, [keyword arguments of each request])."""
+    from ..miniinterp import Obj, run_function
+
+    fn = cls.methods[name]
+    seen = []
+
+    def hook(call, env, it):
+        n = call_name(call) or ""
+        path = attr_path(call.func) or ""
+        if path == "self.generic_message":
+            seen.append({k.arg: it.ev(k.value, env) for k in call.keywords if k.arg})
+            return Obj(kind="response", _truth=True, value=me_attrs.get("__reply__"), error=None)
+        if path == "PADDED_EPATH.encode":
+            kw = {k.arg: it.ev(k.value, env) for k in call.keywords}
+            return ("EPATH", tuple(it.ev(call.args[0], env)), kw.get("length", False), kw.get("pad_length", False))
+        if n in ("PortSegment", "Struct", "n_bytes", "ULINT", "UINT", "UDINT") and isinstance(call.func, ast.Name):
+            return (n,) + tuple(it.ev(a, env) if not (isinstance(a, ast.Name) and a.id in ("UINT", "ULINT", "UDINT")) else a.id for a in call.args)
+        if isinstance(call.func, ast.Attribute) and call.func.attr == "encode" and isinstance(call.func.value, ast.Name) and isinstance(env.get(call.func.value.id), tuple) and env[call.func.value.id][:1] == ("Struct",):
+            return ("encoded", env[call.func.value.id], tuple(it.ev(call.args[0], env)))
+        if path in ("ModuleIdentityObject.decode",):
+            return {"status": b"\x30\x60"}
+        if path == "time.time":
+            return 1.0
+        return UNKNOWN
+
+    env = {"self": witness_instance(cls, **{k: v for k, v in me_attrs.items() if not k.startswith("__")})}
+    params = [a.arg for a in fn.args.args][1:]
+    defaults = dict(zip(params[len(params) - len(fn.args.defaults):], [ctx.folder.eval(d, cls.module) for d in fn.args.defaults]))
+    for p_ in params:
+        env[p_] = args.get(p_, defaults.get(p_))
+    kind, res = run_function(ctx, cls.module, fn, env, call_hook=hook, deep=False)
+    return kind, res, seen
+
+
+def _hexform(v):
+    if isinstance(v, bytes):
+        return v.hex()
+    if isinstance(v, int) and not isinstance(v, bool):
+        return f"{v:02x}"
+    if isinstance(v, ClassRef):
+        return v.ci.name
+    return v
+
+
 @rule(P, "D14.5", "T-SPEC", floor=7)
 def d14_5(ctx):
-    """Helpers address the documented service / class / instance / attribute over the documented transport."""
+    """Helpers address the documented service / class / instance over the documented transport, decode the reply as documented and
+    build their request data / route as documented.  Each helper is folded with generic_message as a marker (sa/miniinterp.py)
+    and the request it makes is compared with the specification table `spec/helpers.json`.  An earlier form read the keyword
+    expressions of the call site and alarmed when one of them was computed into a local first."""
     sp = ctx.spec("helpers")
     lx = ctx.model.cls(f"{LX}:LogixDriver")
     drv = ctx.model.cls(f"{CD}:CIPDriver")
-    table = [("get_plc_name", lx), ("get_plc_info", lx), ("get_module_info", drv), ("get_plc_time", lx), ("set_plc_time", lx)]
-    for name, cls in table:
+    table = [("get_plc_name", lx, {"_info": {}, "__reply__": "name"}, {}, None), ("get_plc_info", lx, {"_micro800": False, "_info": {}, "__reply__": {"status": b"\x30\x60"}}, {}, None),
+             ("get_plc_info", lx, {"_micro800": True, "_info": {}, "__reply__": {"status": b"\x30\x60"}}, {}, "micro800"),
+             ("get_module_info", drv, {"_cfg": {"cip_path": ["<hop1>", "<last hop>"]}, "__reply__": b"raw"}, {"slot": 3}, None), ("get_plc_time", lx, {"__reply__": {"\u00b5s": 5}}, {}, None),
+             ("set_plc_time", lx, {}, {"microseconds": 123456}, None)]
+    for name, cls, attrs, args, variant in table:
         fn = cls.methods.get(name)
+        key = ckey(f"{cls.key}.{name}" + (f"#{variant}" if variant else ""))
         if fn is None:
-            ctx.undecided(ckey(f"{cls.key}.{name}"), cls.node, "anchor vanished")
+            ctx.undecided(key, cls.node, "anchor vanished")
             continue
-        call, kw = _gm_call(ctx, fn, cls.module)
+        kind, res, seen = _helper_request(ctx, cls, name, attrs, args)
+        if kind == "unknown":
+            ctx.undecided(key, fn, f"{name} not foldable: {res}")
+            continue
         want = sp[name]
-        if call is None:
-            ctx.violation(ckey(f"{cls.key}.{name}"), fn, "helper no longer goes through generic_message")
+        if len(seen) != 1:
+            ctx.violation(key, fn, f"{name} makes {len(seen)} generic_message request(s) instead of one")
             continue
-        got = {"service": _cv(ctx, kw.get("service"), cls.module), "class": _cv(ctx, kw.get("class_code"), cls.module), "instance": _cv(ctx, kw.get("instance"), cls.module)}
-        inst = got["instance"]
-        inst = int(inst, 16) if isinstance(inst, str) else inst
+        kw = seen[0]
+        got = {"service": _hexform(kw.get("service")), "class": _hexform(kw.get("class_code")), "instance": _hexform(kw.get("instance"))}
+        inst = int(got["instance"], 16) if isinstance(got["instance"], str) else got["instance"]
         probs = []
         if got["service"] != want["service"]:
             probs.append(f"service {got['service']} != {want['service']}")
@@ -311,50 +250,33 @@ def d14_5(ctx):
         if inst != want["instance"]:
             probs.append(f"instance {inst} != {want['instance']}")
         if "connected" in want:
-            c = _cv(ctx, kw.get("connected"), cls.module) if "connected" in kw else True
+            c = kw.get("connected", True)
             if c != want["connected"]:
                 probs.append(f"connected={c} != {want['connected']}")
             if want["connected"] and "with_forward_open" not in decorators(fn) and name == "get_plc_name":
                 probs.append("connected helper is not guarded by @with_forward_open")
-        if "data_type" in want:
-            dt = _cv(ctx, kw.get("data_type"), cls.module)
-            if dt != want["data_type"]:
-                probs.append(f"data_type {dt} != {want['data_type']}")
-        if want.get("unconnected_send"):
-            if _cv(ctx, kw.get("unconnected_send"), cls.module) is not True:
-                probs.append("unconnected_send is not True")
-        if name == "get_plc_info":
-            us = kw.get("unconnected_send")
-            if not (us is not None and src(us).replace(" ", "") == "notself._micro800"):
-                probs.append("Micro800 rule for unconnected_send changed")
-        if name == "get_module_info":
-            rp = kw.get("route_path")
-            ok = isinstance(rp, ast.Call) and attr_path(rp.func) == "PADDED_EPATH.encode" and {k.arg: ctx.folder.eval(k.value, cls.module) for k in rp.keywords} == {"length": True, "pad_length": True}
-            if ok:
-                t = rp.args[0]
-                ok = isinstance(t, ast.Tuple) and len(t.elts) == 2 and isinstance(t.elts[0], ast.Starred) and src(t.elts[0].value).replace(" ", "").replace('"', "'") == "self._cfg['cip_path'][:-1]" and isinstance(t.elts[1], ast.Call) and call_name(t.elts[1]) == "PortSegment" and ctx.folder.eval(t.elts[1].args[0], cls.module) == "bp" and atom_name(t.elts[1].args[1]) == "slot"
-            if not ok:
-                probs.append("route is not cip_path[:-1] + PortSegment('bp', slot) with word count and reserved byte")
+        if "data_type" in want and _hexform(kw.get("data_type")) != want["data_type"]:
+            probs.append(f"data_type {_hexform(kw.get('data_type'))} != {want['data_type']}")
+        if want.get("unconnected_send") and kw.get("unconnected_send") is not True:
+            probs.append("unconnected_send is not True")
+        if name == "get_plc_info" and kw.get("unconnected_send") is not (variant != "micro800"):
+            probs.append(f"unconnected_send={kw.get('unconnected_send')!r} for a {'Micro800' if variant else 'Logix'} target (the Unconnected Send wrapper is used except on Micro800)")
+        if name == "get_module_info" and kw.get("route_path") != ("EPATH", ("<hop1>", ("PortSegment", "bp", 3)), True, True):
+            probs.append(f"route {kw.get('route_path')!r} is not the connection path without its last hop + bp/<slot>, with word count and reserved byte")
         if name == "get_plc_time":
-            rd = _cv(ctx, kw.get("request_data"), cls.module)
-            dt = kw.get("data_type")
-            ok_dt = isinstance(dt, ast.Call) and call_name(dt) == "Struct" and len(dt.args) == 2 and isinstance(dt.args[0], ast.Call) and call_name(dt.args[0]) == "n_bytes" and ctx.folder.eval(dt.args[0].args[0], cls.module) == want["reply_prefix_width"] and isinstance(dt.args[1], ast.Call) and call_name(dt.args[1]) == want["value"]
-            if not (isinstance(rd, str) and rd[:4] == "0100" and len(rd) == 8):
-                probs.append(f"request data {rd} is not `count=1, attribute`")
-            if not ok_dt:
-                probs.append("reply is not decoded as 6 prefix bytes + ULINT microseconds")
+            rd, dt = kw.get("request_data"), kw.get("data_type")
+            if not (isinstance(rd, bytes) and rd[:2] == b"\x01\x00" and len(rd) == 4):
+                probs.append(f"request data {rd!r} is not `count=1, attribute`")
+            if not (isinstance(dt, tuple) and dt[:1] == ("Struct",) and len(dt) == 3 and dt[1] == ("n_bytes", want["reply_prefix_width"]) and isinstance(dt[2], tuple) and dt[2][0] == want["value"]):
+                probs.append(f"reply decoded as {dt!r}, not {want['reply_prefix_width']} prefix bytes + {want['value']} microseconds")
         if name == "set_plc_time":
             rd = kw.get("request_data")
-            ok = isinstance(rd, ast.Call) and isinstance(rd.func, ast.Attribute) and rd.func.attr == "encode" and isinstance(rd.args[0], ast.List) and len(rd.args[0].elts) == 3 and ctx.folder.eval(rd.args[0].elts[0], cls.module) == 1 and atom_name(rd.args[0].elts[2]) == "microseconds"
-            st = [n for n in walk(fn) if isinstance(n, ast.Assign) and atom_name(n.targets[0]) == atom_name(rd.func.value)] if ok else []
-            ok = ok and len(st) == 1 and isinstance(st[0].value, ast.Call) and call_name(st[0].value) == "Struct" and [atom_name(a) for a in st[0].value.args] == ["UINT", "UINT", "ULINT"]
-            if not ok:
-                probs.append("request data is not Struct(UINT count=1, UINT attribute, ULINT microseconds)")
-        key = ckey(f"{cls.key}.{name}")
+            if not (isinstance(rd, tuple) and rd[0] == "encoded" and rd[1] == ("Struct", "UINT", "UINT", "ULINT") and len(rd[2]) == 3 and rd[2][0] == 1 and rd[2][2] == 123456):
+                probs.append(f"request data {rd!r} is not Struct(UINT count=1, UINT attribute, ULINT microseconds)")
         if probs:
-            ctx.violation(key, call, "; ".join(probs), got=got)
+            ctx.violation(key, fn, "; ".join(probs), got=got)
         else:
-            ctx.ok(key, call, f"service {want['service']}, class {want['class']}, instance {want['instance']}", got=got)
+            ctx.ok(key, fn, f"service {want['service']}, class {want['class']}, instance {want['instance']}", got=got)
     # template read / structure makeup / symbol list services
     lxm = lx.methods
     checks = [("_read_template", "template_read"), ("_get_structure_makeup", "structure_makeup")]
